@@ -42,8 +42,8 @@ def main():
          "label": "after an earlier poll on the same broker {none, explicit empty pattern, the allowed pattern, legacy, the same pattern explicit}: (ii) broker: allowed pattern (10) x proxy pattern (10) x field present/absent x presumed pattern (%s): poll answered 'incorrect relay pattern' iff the effective pattern is not a superset (independent reference), never registered, a client arriving next is refused" % ("4" if tier == "quick" else "10")}], 100 if tier == "quick" else 640)
     # (iii) proxy side
     s3, t3, sm3, e3 = sched.run_passes(rep, proxy_common.build(), [
-        {"harness": "c06-proxy", "budget_s": 60 if tier == "quick" else 300,
-         "label": "(iii) proxy: broker-supplied relay URLs from a grammar (6 schemes x 3 userinfo x 11 hosts x 3 ports x 3 tails) x 3 patterns x AllowNonTLSRelay through the real runSession + datachannelHandler: every dialled host satisfies the proxy's own matcher, wss unless non-TLS allowed, slot released"}], 80 if tier == "quick" else 320)
+        {"harness": "c06-proxy", "cfg": {"prior": "1"}, "budget_s": 60 if tier == "quick" else 300,
+         "label": "(iii) proxy, optionally after an earlier session whose relay URL was acceptable: broker-supplied relay URLs from a grammar (6 schemes x 3 userinfo x 11 hosts x 3 ports x 3 tails) x 3 patterns x AllowNonTLSRelay through the real runSession + datachannelHandler: every dialled host satisfies the proxy's own matcher, wss unless non-TLS allowed, slot released"}], 200 if tier == "quick" else 700)
     for k in tot:
         tot[k] += t2[k] + t3[k]
     sched.sched_coverage(rep, summary + s2 + s3, tot, samples + sm2 + sm3, exh and e2 and e3)
